@@ -66,6 +66,10 @@ def data_input(name, pattern, carrier='list_none', symbolic=True, values=None):
         if len(cells) != len(els):
             raise ValueError('integer carrier with missing values')
         return Vec.fresh(cells, kind='nd', dtype='i8', owner=name)
+    if carrier == 'masked_nan':
+        # a masked array (no element masked) in which the missing values are NaN
+        cells = [El(X.NAN, False) if e is None else El(e.d if isinstance(e, Sc) else X.num(e), False) for e in els]
+        return Vec.fresh(cells, kind='ma', dtype='f8', owner=name)
     if carrier == 'masked':
         # the data under a caller's mask is an arbitrary real number
         cells = [El(x(name + '~masked', i), True) if e is None else El(e.d if isinstance(e, Sc) else X.num(e), False)
